@@ -152,7 +152,7 @@ def oracle_c15(program, po, so):
                 if src_err is not None and src_err.get("exc") in ALLOWED_REFUSALS and be == "sqlite":
                     continue
                 diffs.append(dict(kind="equiv_outcome", stmt=bad["id"], op=kind, backend=be, exc=(src_err or {}).get("exc"),
-                                  detail=f"{xa}: {oa}, {xb}: {ob}"))
+                                  msg=(src_err or {}).get("msg"), detail=f"{xa}: {oa}, {xb}: {ob}"))
     return diffs
 
 
